@@ -27,6 +27,10 @@ def same_instant(a, b):
         return False
 
 
+def case_has_renames(tree):
+    return any(b"<previousPath" in c for p, c in tree.items() if c is not None and p.endswith(".mhl"))
+
+
 def parse_info(out, sections=()):
     """{section path or '': [(number, date, fmt, digest, action)]}; sections: absolute paths of the nested histories"""
     sec = ""
@@ -108,7 +112,9 @@ def judge_state(ctx, tree, now, case):
         for g in ref.generations(tree, hr):
             m = ref.read_manifest(g["bytes"])
             for rec in m["records"]:
-                if rec["kind"] == "file" and rec["path"] == rel:
+                # (a record that names this path as its former path is a record of this file as well: the generation in which
+                # the file carried another name)
+                if rec["kind"] == "file" and (rec["path"] == rel or rec["previousPath"] == rel):
                     for h in rec["hashes"]:
                         want.append((g["number"], m["creationdate"], h["format"], h["digest"], h["action"]))
         wants[f] = (hr, want)
@@ -117,6 +123,8 @@ def judge_state(ctx, tree, now, case):
         if nforms <= 2:   # other ways of naming the same file
             forms += [("relative-to-cwd", ["-sf", f], root), ("through-symlink", ["-sf", os.path.join(link, f)], None),
                       ("with-root-through-symlink", [link, "-sf", os.path.join(link, f)], None)]
+        if nforms <= 2 or case_has_renames(tree):
+            forms.append(("verbose", ["-v", "-sf", os.path.join(root, f)] + ([root] if "" in roots else []), None))
         for form, args, cwd in forms:
             if form.startswith("with-root") and "" not in roots:
                 continue
@@ -127,6 +135,13 @@ def judge_state(ctx, tree, now, case):
                 continue
             got = [x for lst in parse_info(r2.out).values() for x in lst if x[2] is not None]
             key = lambda x: (x[0], x[2] or "", x[3] or "", x[4] or "")
+            if form == "verbose":
+                # the verbose form adds lines (creator / process information, the records of a former name): every recorded digest
+                # of the file must still be there
+                if not set(map(key, want)) <= set(map(key, got)):
+                    V("digest-lines", f"info -v -sf {f} (history '{hr or '.'}'): printed {got}, recorded {want}", form=form, in_child=hr != "",
+                      n_printed=min(len(got), 1))
+                continue
             if sorted(map(key, got)) != sorted(map(key, want)) or [x[0] for x in got] != sorted(x[0] for x in got) or \
                     any(not same_instant(a[1], b[1]) for a, b in zip(sorted(got, key=key), sorted(want, key=key))):
                 V("digest-lines", f"info {form} -sf {f} (history '{hr or '.'}'): printed {got}, recorded {want}",
@@ -245,6 +260,10 @@ def main(tier, seed):
     import re as _re
     first = dict(g1); first["ascmhl/ascmhl_chain.xml"] = _re.sub(rb"<hashlist.*</hashlist>\s*", b"", g1["ascmhl/ascmhl_chain.xml"], flags=_re.S)
     inits.append(("first-manifest-not-yet-chained", first, dict(alpha="c06", cmds=0, edits=0, max_cmds=0, max_edits=0)))
+    # a file that was renamed (-dr) and renamed back: its records name each other as former paths
+    rb = ops.build(eng.local_ctx(), dict(c06.BASE), [ops.create("", ["md5"]), ["mv", "a.txt", "a-r.txt"], ops.create("", ["md5"], dr=True),
+                                                     ["mv", "a-r.txt", "a.txt"], ops.create("", ["md5"], dr=True)])
+    inits.append(("renamed-and-renamed-back", rb, dict(alpha="c06", cmds=0, edits=0, max_cmds=1, max_edits=0)))
     tot = {"states": 0, "transitions": 0}
     runs = []
     for name, tree, meta in inits:
